@@ -34,17 +34,21 @@ END_VAR
 VAR
     pn : INT := INT#0;
     q0 AT %QW0 : INT; q1 AT %QW2 : INT; q2 AT %QW4 : INT; q3 AT %QW6 : INT;
+    t1 : TON; q4 AT %QX8.0 : BOOL;
 END_VAR
 gr := gr + INT#1; gn := gn + INT#1; pr := pr + INT#1; pn := pn + INT#1;
 q0 := gr; q1 := gn; q2 := pr; q3 := pn;
+t1(IN := TRUE, PT := T#5ms);
+q4 := t1.Q;
 END_PROGRAM
 "#;
-const IMG: usize = 8;
+const IMG: usize = 10;
 
 type Log = Arc<Mutex<Vec<J>>>;
 
 struct Drv {
     log: Log,
+    clock: ManualClock,
 }
 impl IoDriver for Drv {
     fn read_inputs(&mut self, _inputs: &mut [u8]) -> Result<(), RuntimeError> {
@@ -52,7 +56,11 @@ impl IoDriver for Drv {
     }
     fn write_outputs(&mut self, o: &[u8]) -> Result<(), RuntimeError> {
         let w = |k: usize| i16::from_le_bytes([o[2 * k], o[2 * k + 1]]) as i64;
-        self.log.lock().unwrap().push(json!({"a": "W", "gr": w(0), "gn": w(1), "pr": w(2), "pn": w(3)}));
+        // `now`: the scheduling clock in ms when the outputs were published; `ton`: Q of a TON (IN = TRUE, PT = 5 ms) that is
+        // re-initialised by every restart
+        use trust_runtime::scheduler::Clock;
+        let now = self.clock.now().as_nanos() / 1_000_000;
+        self.log.lock().unwrap().push(json!({"a": "W", "gr": w(0), "gn": w(1), "pr": w(2), "pn": w(3), "ton": o[8] & 1 == 1, "now": now}));
         Ok(())
     }
 }
@@ -119,7 +127,8 @@ fn one_run(rng: &mut StdRng, k: usize) -> Result<Vec<J>, String> {
     // be written back over the restarted runtime's value by sync_into, which is C20's subject, not C09's)
     let shared = SharedGlobals::from_runtime(vec!["sh".into()], &rt).map_err(|e| e.to_string())?;
     let log: Log = Arc::new(Mutex::new(Vec::new()));
-    rt.add_io_driver("zq".to_string(), Box::new(Drv { log: log.clone() }));
+    let clock = ManualClock::new();
+    rt.add_io_driver("zq".to_string(), Box::new(Drv { log: log.clone(), clock: clock.clone() }));
     let disk = Arc::new(Mutex::new(None));
     // a third of the runs start on a store that already holds a snapshot -- written by an EARLIER VERSION of the
     // program, which had two RETAIN variables more (a global, stored first, and a program variable in the middle):
@@ -143,7 +152,6 @@ fn one_run(rng: &mut StdRng, k: usize) -> Result<Vec<J>, String> {
             rt.load_retain_store().map_err(|e| e.to_string())?;
         }
     }
-    let clock = ManualClock::new();
     let signal = Arc::new(Mutex::new(None::<RestartMode>));
     let runner = ResourceRunner::new(rt, clock.clone(), Duration::from_millis(1)).with_restart_signal(signal.clone());
     let mut handle = if shared_runner { runner.spawn_with_shared("zq-restart", shared).map_err(|e| e.to_string())? } else { runner.spawn("zq-restart").map_err(|e| e.to_string())? };
@@ -169,7 +177,8 @@ fn one_run(rng: &mut StdRng, k: usize) -> Result<Vec<J>, String> {
             // request and log entry under the log lock: every cycle logged before it ended before the request
             let mut l = log.lock().unwrap();
             *signal.lock().unwrap() = Some(mode);
-            l.push(json!({"a": "Req", "mode": if matches!(mode, RestartMode::Warm) { "warm" } else { "cold" }}));
+            use trust_runtime::scheduler::Clock;
+            l.push(json!({"a": "Req", "mode": if matches!(mode, RestartMode::Warm) { "warm" } else { "cold" }, "now": clock.now().as_nanos() / 1_000_000}));
         }
         modes.push(mode);
         // the restart must have been taken before the next request
